@@ -912,7 +912,11 @@ class Shelxfile():
 
     @staticmethod
     def _coordinates_are_unrealistic(spline: List[str]) -> bool:
-        return any(float(y) > 4.0 for y in spline[2:5])
+        try:
+            return any(float(y) > 4.0 for y in spline[2:5])
+        except ValueError:
+            # Not a number, this can not be an atom:
+            return True
 
     def to_cif(self, filename: str = None, template: Optional[str] = None) -> None:
         """
